@@ -1,7 +1,27 @@
 """The decide / classify / replay / exclude loop shared by all properties."""
 import json
 from smtlib import TRUE, FALSE, And, Or, Not, is_t, is_f
-from core import eval_bool, write_replay, known_roles
+from core import eval_bool, eval_bv, write_replay, known_roles
+from smtlib import bv
+import z3
+
+
+def minimise(dec, name, assumptions, goal, inputs, vals, extra, rounds=4):
+    """shrink a witness: re-query with `total input size < current` (same
+    assumptions, same violated goal, same shape `extra`) a few times with a short
+    cap; returns the smallest witness found"""
+    size = inputs.size_term()
+    best = vals
+    for r in range(rounds):
+        cur = eval_bv(size, inputs.subst_pairs(best))
+        if cur == 0:
+            break
+        v, model, _ = dec.decide("%s#min%d" % (name, r), list(assumptions) + list(extra) + [z3.ULT(size, bv(cur, 16))],
+                                 goal, second="minimise", timeout=20)
+        if v != "sat":
+            break
+        best = inputs.decode(model)
+    return best
 
 
 def hunt(dec, res, prop, name, assumptions, goal, shapes, inputs, replay_fn, role_prefix,
@@ -44,6 +64,9 @@ def hunt(dec, res, prop, name, assumptions, goal, shapes, inputs, replay_fn, rol
                     break
             except ValueError:
                 continue
+        if shape is not None and "%s/%s" % (role_prefix, shape[0]) not in roles:
+            vals = minimise(dec, "%s#%d" % (name, k - 1), list(assumptions) + excl, goal, inputs, vals, [shape[1]])
+            pairs = inputs.subst_pairs(vals)
         rep = replay_fn(vals)
         if not rep.get("reproduced"):
             res.inconclusive.append("%s: solver model does not reproduce natively (encoder wrong?): inputs=%s native=%s"
@@ -96,6 +119,7 @@ def hunt_multi(dec, res, prop, name, assumptions, clauses, shapes, inputs, repla
     excl = {c: [] for c, _ in clauses}
     roles = []
     k = 0
+    n_other = 0
     while True:
         goal = And(*[Or(t, *excl[c]) for c, t in clauses])
         v, model, note = dec.decide("%s#%d" % (name, k), list(assumptions), goal, second=name.split("@")[0])
@@ -126,6 +150,16 @@ def hunt_multi(dec, res, prop, name, assumptions, clauses, shapes, inputs, repla
                     break
             except ValueError:
                 continue
+        if shape is not None and role_of(failing, shape[0]) not in roles:
+            fgoal = dict(clauses)[failing]
+            earlier = []
+            for c, t in clauses:
+                if c == failing:
+                    break
+                earlier.append(Or(t, *excl[c]))
+            vals = minimise(dec, "%s#%d" % (name, k - 1), list(assumptions) + earlier, Or(fgoal, *excl[failing]), inputs, vals,
+                            [shape[1]])
+            pairs = inputs.subst_pairs(vals)
         rep = replay_fn(vals)
         if failing not in rep.get("violated", []):
             res.inconclusive.append("%s: solver model for clause %s does not reproduce natively (encoder or concrete oracle wrong?): "
@@ -142,6 +176,11 @@ def hunt_multi(dec, res, prop, name, assumptions, clauses, shapes, inputs, repla
             res.violations.append({"role": role, "what": rep.get("what", ""), "replay": path, "witness": vals})
         if shape is None:
             excl[failing].append(And(*[v == val for v, val in pairs]))
+            n_other += 1
+            if n_other >= 3:
+                res.inconclusive.append("%s: clause %s is violated by several witnesses outside every predefined shape class "
+                                        "(role .../other); search stopped after 3" % (name, failing))
+                break
         else:
             excl[failing].append(shape[1])
         if k > max_rounds:
